@@ -1,5 +1,6 @@
 //! Property-based verification harness for ntex-mqtt (see /verif/DESIGN.md).
 #![allow(clippy::all)]
+pub mod bed;
 pub mod conv;
 pub mod decoding;
 pub mod strat;
